@@ -561,6 +561,8 @@ class CallMixin:
             st.assume(f"(and (k_obj {res.t}) (= (class_of (oid {res.t})) {self.ctab.cid(rcls)}))", fact=True)
         for extra in c.assume:
             st.assume(sp.compile_bool(extra), fact=True)
+            self.trusted_used.add(f"definition assumed at call sites of {c.name}: `{extra}` (names the callee's result; assumes it is a function of the "
+                                  f"arguments between writes)")
         return res
 
     def exc_class(self, name):
